@@ -209,3 +209,81 @@ func verifC09(kind, V, rounds int, seed uint32) {
 func VerifH_C09_meshV3() { verifC09(0, 3, 5, 1) }
 func VerifH_C09_lcgV3()  { verifC09(4, 3, 7, 7) }
 func VerifH_C09_meshV4() { verifC09(0, 4, 5, 1) }
+
+func VerifH_C08_laggingV3() { verifC08(2, 3, 9, 1) }
+func VerifH_C08_laggingV4() { verifC08(2, 4, 9, 1) }
+func VerifH_C09_laggingV3() { verifC09(2, 3, 10, 1) }
+func VerifH_C09_laggingV4() { verifC09(2, 4, 10, 1) }
+
+func VerifH_C08_lagheavyV3() { verifC08(6, 3, 10, 1) }
+func VerifH_C08_lagheavyV4() { verifC08(6, 4, 10, 1) }
+func VerifH_C09_lagheavyV3() { verifC09(6, 3, 10, 1) }
+func VerifH_C09_lagheavyV4() { verifC09(6, 4, 10, 1) }
+
+// ---------------------------------------------------------------------
+// C08 (unit level): what a restarted instance reads from the copied databases equals what the
+// running instance sees (cache + table), for arbitrary short histories of persisted updates.
+
+func verifC08Store(nOps int) {
+	s := verifStore(1000, 100)
+	s.applyGenesis(1, nil)
+	opn := [...]string{"sop0", "sop1", "sop2", "sop3"}
+	spn := [...]string{"sspf0", "sspf1", "sspf2", "sspf3"}
+	frn := [...]string{"sfr0", "sfr1", "sfr2", "sfr3"}
+	crn := [...]string{"scr0", "scr1", "scr2", "scr3"}
+	var confirmed []dag.Event
+	for i := 0; i < nOps; i++ {
+		switch sym.Choice(opn[i], 4) {
+		case 0, 1: // a root spanning 1-3 frames
+			spf := idx.Frame(sym.Choice(spn[i], 3))
+			frame := spf + 1 + idx.Frame(sym.Choice(frn[i], 3))
+			e := &dag.MutableBaseEvent{}
+			e.SetEpoch(1)
+			e.SetFrame(frame)
+			e.SetCreator(idx.ValidatorID(1 + sym.Choice(crn[i], 2)))
+			e.SetLamport(idx.Lamport(i + 1))
+			e.SetID([24]byte{byte(i + 1)})
+			if sym.Choice("warm", 2) == 1 {
+				s.GetFrameRoots(spf + 1) // the frame may or may not be cached when the root arrives
+			}
+			s.AddRoot(spf, e)
+			sym.Reach("root")
+		case 2:
+			e := &dag.MutableBaseEvent{}
+			e.SetEpoch(1)
+			e.SetID([24]byte{byte(100 + i)})
+			s.SetEventConfirmedOn(e.ID(), idx.Frame(1+sym.Choice(frn[i], 3)))
+			confirmed = append(confirmed, e)
+		case 3:
+			s.SetLastDecidedState(&LastDecidedState{LastDecidedFrame: idx.Frame(sym.U32("ldf"))})
+		}
+	}
+	// restart: copy the databases, open a fresh store
+	main2, epoch2 := copyDB(s.mainDB), copyDB(s.epochDB)
+	r := NewStore(main2, func(idx.Epoch) kvdb.Store { return epoch2 }, func(err error) { panic(err) }, LiteStoreConfig())
+	if err := r.openEpochDB(1); err != nil {
+		panic(err)
+	}
+	sym.Assert(r.GetLastDecidedFrame() == s.GetLastDecidedFrame(), "last decided frame survives a restart")
+	sym.Assert(r.GetEpoch() == s.GetEpoch(), "epoch survives a restart")
+	for f := idx.Frame(1); f <= 6; f++ {
+		a, b := s.GetFrameRoots(f), r.GetFrameRoots(f)
+		sym.Assert(len(a) == len(b), "a restarted instance finds the same number of roots in every frame")
+		for _, x := range a {
+			found := false
+			for _, y := range b {
+				if x == y {
+					found = true
+				}
+			}
+			sym.Assert(found, "a restarted instance finds every root of every frame")
+		}
+	}
+	for _, e := range confirmed {
+		sym.Assert(r.GetEventConfirmedOn(e.ID()) == s.GetEventConfirmedOn(e.ID()), "confirmation marks survive a restart")
+	}
+	sym.Reach("store-restart")
+}
+
+func VerifH_C08_store2() { verifC08Store(2) }
+func VerifH_C08_store3() { verifC08Store(3) }
